@@ -300,7 +300,7 @@ def run(ctx):
 
 
 MANIFEST_ENTRY = {
-    "technique": "static analysis: symbolic byte-offset evaluation (linear-offset abstract domain over the syn tree) of the string-splitting functions for exact tiling and char-boundary safety; traversal-completeness and order checks of reducer and generators; per-locale provenance check in generator closures",
+    "technique": "static analysis: symbolic byte-offset evaluation (linear-offset abstract domain over the syn tree) of the string-splitting functions for exact tiling and char-boundary safety; traversal-completeness and order checks of reducer and generators in canonical form (py/canon.py); abstract evaluation of the tuple-regrouping generator on 0..700 pieces (rules/absint.py); per-locale provenance check in generator closures",
     "level_text": "Structural: the splitting functions are evaluated symbolically (no concrete string) to show the pieces tile the input with only delimiters in the gaps; reducer and generators are shown to keep every piece in order and to pair each arm with its own locale's data. Which delimiters pair up for a concrete text is not decided.",
     "level_note": "Trusted: std str search APIs return boundaries; quote!/leptos ordering. Not decided: delimiter pairing choice, HTML rendering.",
 }
